@@ -286,6 +286,8 @@ func (w *World) Enabled() []Op {
 				}
 			} else {
 				add(Op{K: "ASK", A: a.Key})
+				// the shim batches "task created" and "task cancelled" of the same task into one update
+				add(Op{K: "ASK_RELEASE", A: a.Key})
 			}
 		} else if ks, ok := m.Keys[a.Key]; ok {
 			if len(a.Resize) > 0 && !m.Resized[a.Key] && (ks.State == "ask" || ks.State == "bound") {
@@ -653,6 +655,14 @@ func (w *World) Apply(op Op) *Step {
 		f = func() { w.sendAlloc([]*si.Allocation{w.askToSI(a, a.Res, "")}, nil) }
 		m.Used[a.Key] = true
 		m.Keys[a.Key] = &KeyState{App: a.App, State: "ask", Ph: a.Placeholder}
+	case "ASK_RELEASE":
+		// one AllocationRequest that carries the new ask and the release of the same key: after it the shim has no
+		// outstanding ask for the key
+		a := s.Ask(op.A)
+		f = func() {
+			w.sendAlloc([]*si.Allocation{w.askToSI(a, a.Res, "")}, []*si.AllocationRelease{{PartitionName: PartitionName, ApplicationID: a.App, AllocationKey: a.Key, TerminationType: si.TerminationType_STOPPED_BY_RM, Message: "shim release"}})
+		}
+		m.Used[a.Key] = true
 	case "ASK_BOUND":
 		a := s.Ask(op.A)
 		f = func() { w.sendAlloc([]*si.Allocation{w.askToSI(a, a.Res, a.BoundNode)}, nil) }
